@@ -76,12 +76,14 @@ type faultFS struct {
 	ids      []string // upload ids seen in NewWriter metadata, in order of first appearance
 	openPath string   // writer open (NewWriter ok, Close not yet ok)
 	injected bool
+	injPath  string   // writer open at the moment a fault was injected
+	newPaths []string // names of the writers created during the request, in order
 }
 
 func (f *faultFS) reset(fault *faultSpec) {
 	f.mu.Lock()
 	defer f.mu.Unlock()
-	f.fault, f.opc, f.trace, f.openPath, f.injected = fault, 0, nil, "", false
+	f.fault, f.opc, f.trace, f.openPath, f.injected, f.injPath, f.newPaths = fault, 0, nil, "", false, "", nil
 }
 
 func (f *faultFS) fails() bool {
@@ -91,8 +93,9 @@ func (f *faultFS) fails() bool {
 		return false
 	}
 	hit := i == f.fault.k || (f.fault.sticky && i >= f.fault.k)
-	if hit {
+	if hit && !f.injected {
 		f.injected = true
+		f.injPath = f.openPath
 	}
 	return hit
 }
@@ -114,6 +117,7 @@ func (f *faultFS) NewWriter(ctx context.Context, name string, metadata map[strin
 	}
 	f.trace = append(f.trace, "N")
 	f.openPath = name
+	f.newPaths = append(f.newPaths, name)
 	return &faultWriter{fs: f, w: w, name: name}, nil
 }
 
@@ -682,7 +686,18 @@ func runScenario(id int, sc *scenario) {
 			hx.Printf("crash %d %s\n", id, strings.ReplaceAll(fmt.Sprint(e), "\n", " "))
 		}
 	}()
-	day := time.Now().UTC().Format("20060102")
+	// a request that straddles UTC midnight has no well-defined day: run the scenario again
+	for try := 0; try < 3; try++ {
+		if runScenarioOnce(id, sc) {
+			return
+		}
+	}
+}
+
+func utcDay() string { return time.Now().UTC().Format("20060102") }
+
+func runScenarioOnce(id int, sc *scenario) bool {
+	day := utcDay()
 	s := newServer(sc.store, sc.user)
 	defer s.close()
 
@@ -726,6 +741,7 @@ func runScenario(id int, sc *scenario) {
 
 		before := s.snap()
 		nidsBefore := len(s.ffs.ids)
+		reqDay := utcDay()
 		s.ffs.reset(rq.fault)
 		var resp response
 		if rq.client != "" {
@@ -735,8 +751,32 @@ func runScenario(id int, sc *scenario) {
 		} else {
 			resp = s.post(body)
 		}
+		if utcDay() != reqDay {
+			return false
+		}
+		reqEnc[len(reqEnc)-1] += "|" + reqDay
 		injected := s.ffs.injected
-		openPath := s.ffs.openPath
+		// the file being written when the failure happened, decided from the fault, not from how the
+		// code closed the writer: the writer open at the injected fault; else the file whose part
+		// reader failed; else the first file without a benchmark line
+		inprogPath := ""
+		if injected {
+			inprogPath = s.ffs.injPath
+		} else {
+			fi := 0
+			for _, e := range evs {
+				if !e.isFile {
+					continue
+				}
+				if e.cut || !hasBench(string(e.content)) {
+					if fi < len(s.ffs.newPaths) {
+						inprogPath = s.ffs.newPaths[fi]
+					}
+					break
+				}
+				fi++
+			}
+		}
 		trace := s.ffs.traceString()
 		s.ffs.reset(nil)
 		if injected {
@@ -814,9 +854,9 @@ func runScenario(id int, sc *scenario) {
 			listed = true
 		}
 		inprog := false
-		if resp.status != 200 && openPath != "" {
+		if resp.status != 200 && inprogPath != "" {
 			for _, n := range after.names {
-				if n == openPath {
+				if n == inprogPath {
 					inprog = true
 				}
 			}
@@ -856,9 +896,17 @@ func runScenario(id int, sc *scenario) {
 	for _, o := range sobs {
 		hx.Printf("sobs %d %s\n", id, o)
 	}
-	if time.Now().UTC().Format("20060102") != day {
-		hx.Printf("obs %d day-changed-during-case\n", id)
+	return true
+}
+
+func hasBench(content string) bool {
+	for _, line := range strings.Split(content, "\n") {
+		line = strings.TrimSuffix(line, "\r")
+		if i := strings.IndexAny(line, " \t\v\f\r"); i >= 0 && strings.HasPrefix(line[:i], "Benchmark") {
+			return true
+		}
 	}
+	return false
 }
 
 func joinOr(l []string) string {
@@ -1005,6 +1053,8 @@ func main() {
 	g := &gen{r: hx.NewRand(20)}
 	g.skip = func(id int) bool { return id%nshards != shard }
 	thorough := hx.Tier() == "thorough"
+
+	runCorpus(g)
 
 	// 0. plain successes
 	for i := 0; i < hx.N(6, 40); i++ {
